@@ -77,8 +77,93 @@ func compileModes(name string, load func() (*core.Spec, error), precompiled bool
 	return out
 }
 
+// goTyped turns a plain pattern into the typed Go containers a spec written in
+// Go might use: map[string]string, []string, []int, int, nested where possible.
+func goTyped(x interface{}) interface{} {
+	switch t := x.(type) {
+	case float64:
+		if t == float64(int(t)) {
+			return int(t)
+		}
+		return t
+	case map[string]interface{}:
+		allStr := len(t) > 0
+		for _, v := range t {
+			if _, ok := v.(string); !ok {
+				allStr = false
+			}
+		}
+		if allStr {
+			m := map[string]string{}
+			for k, v := range t {
+				m[k] = v.(string)
+			}
+			return m
+		}
+		m := map[string]interface{}{}
+		for k, v := range t {
+			m[k] = goTyped(v)
+		}
+		return m
+	case []interface{}:
+		allStr, allNum := len(t) > 0, len(t) > 0
+		for _, v := range t {
+			if _, ok := v.(string); !ok {
+				allStr = false
+			}
+			if f, ok := v.(float64); !ok || f != float64(int(f)) {
+				allNum = false
+			}
+		}
+		if allStr {
+			a := []string{}
+			for _, v := range t {
+				a = append(a, v.(string))
+			}
+			return a
+		}
+		if allNum {
+			a := []int{}
+			for _, v := range t {
+				a = append(a, int(v.(float64)))
+			}
+			return a
+		}
+		a := []interface{}{}
+		for _, v := range t {
+			a = append(a, goTyped(v))
+		}
+		return a
+	}
+	return x
+}
+
 func variants(a *ref.ASpec, dir string, idx int) []variant {
 	var vs []variant
+	// Go structures whose inline patterns are typed Go containers, with no pattern syntax
+	// and under the JSON syntax (which passes a pattern that is not a string through)
+	for _, syntax := range []string{"", "json"} {
+		syntax := syntax
+		vs = append(vs, compileModes("go-typed-containers-syntax-"+syntax, func() (*core.Spec, error) {
+			s := a.Core(false, ref.NativeNilErr)
+			s.PatternSyntax = syntax
+			for _, n := range s.Nodes {
+				if n.Branches != nil {
+					for _, b := range n.Branches.Branches {
+						if b.Pattern != nil {
+							if str, isStr := b.Pattern.(string); isStr && syntax == "json" {
+								js, _ := json.Marshal(str)
+								b.Pattern = string(js) // a string pattern must be JSON text under this syntax
+							} else {
+								b.Pattern = goTyped(b.Pattern)
+							}
+						}
+					}
+				}
+			}
+			return s, nil
+		}, false)...)
+	}
 	for _, asText := range []bool{false, true} {
 		tag := "inline"
 		if asText {
@@ -192,7 +277,7 @@ var shapes = []interface{}{
 }
 
 func Run(cfg fw.Config, rec *fw.Rec) {
-	rec.Rule = "each abstract spec (random node graph, guards, actions, all error settings, plus a start node whose message-branch patterns cover every JSON shape at the top level: map, array, bare string, bare variable, number, boolean, null, property variable) is rendered as Go structures, JSON, YAML via jsccast/yaml, and through sio's URL loader (YAML and JSON files) and inline loader, each with inline patterns and with JSON-text patterns under patternSyntax json, each compiled once / three times / compiled-serialised-reloaded-compiled (36 variants); all must compile and give identical traces on shared message sequences; unknown interpreter / pattern syntax / branching type must fail at Compile; non-trivial = spec whose trace has >= 3 strides; distinct by spec"
+	rec.Rule = "each abstract spec (random node graph, guards, actions, all error settings, plus a start node whose message-branch patterns cover every JSON shape at the top level: map, array, bare string, bare variable, number, boolean, null, property variable) is rendered as Go structures, JSON, YAML via jsccast/yaml, and through sio's URL loader (YAML and JSON files) and inline loader, each with inline patterns and with JSON-text patterns under patternSyntax json, each compiled once / three times / compiled-serialised-reloaded-compiled (42 variants incl. Go structures whose inline patterns are typed Go containers such as map[string]string, []string, []int); all must compile and give identical traces on shared message sequences; unknown interpreter / pattern syntax / branching type must fail at Compile; non-trivial = spec whose trace has >= 3 strides; distinct by spec"
 	rec.Required = []string{"variants_agree", "negative_unknown_interpreter", "negative_unknown_pattern_syntax", "negative_unknown_branching_type", "string_pattern_as_json_text", "traces_with_scalar_messages"}
 	rec.Assume = []string{"specs are deterministic", "the YAML rendering is block style with JSON flow scalars/collections for patterns"}
 	n := cfg.Pick(400, 6000)
